@@ -288,4 +288,7 @@ def cases(draw):
     msi = draw(st.sampled_from([None, None, 1, 3, 5, 10, 11, 12, 16, 20]))
     dpool = present + negs + (allowed or []) + ABSENT
     delta = draw(st.sampled_from(dpool))
-    return {"lang": lang, "files": files, "cfg": {"allowed": allowed, "msi": msi}, "delta": delta}
+    # now and then the settings travel as a per-language section and a file of another language (judged by the top
+    # level) is linted first in the same run
+    company = allowed is not None and draw(st.integers(0, 3)) == 0
+    return {"lang": lang, "files": files, "cfg": {"allowed": allowed, "msi": msi}, "delta": delta, "company": company}
